@@ -201,10 +201,15 @@ def run_unit(unit, rlimit=30, canary=False, extra=(), keep=True):
         else:
             nm, _ = enclosing_tmpl_fn(pl) if pl else (None, None)
             fn_name = 'spec::' + (nm or '?')
-        props = set(tags)
-        if not props and it is not None:
-            props = set(items[it].get('props') or [])
         safety = any(what.startswith(k) for k in SAFETY_KINDS)
+        props = set(tags)
+        if not props:
+            if safety:
+                # an unguarded unwrap / index / slice / overflow / non-termination: "returns normally" (C01),
+                # plus whatever the unit declares for its safety obligations (e.g. C10 in the adversarial-environment unit)
+                props = set(['C01']) | set(meta.get('safety_props') or [])
+            elif it is not None:
+                props = set(items[it].get('props') or [])
         clause = lines[pl - 1].strip()[:300] if pl else ''
         res['failures'].append({
             'unit': unit, 'kind': what, 'function': fn_name, 'item_index': it, 'props': sorted(props), 'safety': safety,
